@@ -61,6 +61,7 @@ package message
 //@ func (*Message).GetAddrs
 //@   property C10
 //@   requires m != nil
+//@   readonly
 //@   loop 1: invariant len(addrs) <= rangeindex + 1 && rangeindex < len(m.Addrs) && cap(addrs) >= len(m.Addrs) && len(addrs) <= cap(addrs)
 //@   loop 1: iteration ghost n0 := len(addrs)
 //@   loop 1: iteration ghost failed := false
